@@ -724,3 +724,7 @@ def run(ck):
     reevaluate(ck, 'C13.g', 'c17', lambda r, k: (r in ('C17.a', 'C17.b', 'C17.c', 'C17.d') and k.startswith(('sink_put_chunk', 'source_get_chunk', 'sink_adapt', 'source_adapt'))) or
                (r == 'C17.f' and k.startswith(('sts_n', 'sts_cbc', 'sts_atmost'))),
                'frames are emitted through sink_put_chunk and decoded through source_get_chunk / sts_n: the exact transfer calls move exactly the designated octets whatever the driver answers')
+    ck.rule('C13.h', 'the variable-length prefix is read like the fixed-width ones: through the exact-count reader, octet used only after the read succeeded (C14.h re-evaluated) - consecutive frames decode in order however the source fragments its reads')
+    reevaluate(ck, 'C13.h', 'c14', lambda r, k: r == 'C14.h',
+               'the varint prefix of a frame is taken from the source whole, whatever the driver answers in between')
+
